@@ -514,7 +514,9 @@ def run (lines : Array String) : IO Report := do
           | none => (k, "MISS" :: ws.map (·.2.2.2))
         let exact := match st.gcSpec with
           | some sp => keys.map fun k => (k, fmtGet (Spec.step scfgSpec sp (.get k)).2)
-          | none => []
+          | none =>
+            -- the state right after an orderly shutdown returned: everything acknowledged must be there (C02)
+            if opts.contains "ev=closed" then keys.map fun k => (k, fmtGet (Spec.step scfgSpec st.spec (.get k)).2) else []
         -- C07 tie: the data files of a crash state inside the pass are one of the abstract intermediate states
         --   before ++ kept(processed) ++ tail ++ rest ++ after      (Lemmas/GCCrash.lean)
         if inGC then
@@ -594,6 +596,10 @@ def run (lines : Array String) : IO Report := do
             else
               let (_, r, _) := Store.step hash st.scfg sn.recovered (.get k)
               if fmtGet r ≠ obs then diffIf st.groups.isEmpty rep ln "model" s!"case={cid} crash-recovery ({sn.label}) get {kh.take 40}: model={(fmtGet r).take 80} impl={obs.take 80}"
+              match sn.exact.find? (fun p => p.1 == k) with
+              | some (_, want) =>
+                  if obs ≠ want then diff rep ln "oracle" s!"case={cid} key=C02/lost-on-clean-shutdown key {kh.take 40} held {want.take 60} when the orderly shutdown returned and reads {obs.take 60} at the next start ({sn.label})"
+              | none => pure ()
               match sn.allowed.find? (fun p => p.1 == k) with
               | some (_, al) =>
                   if !(al.contains obs) then
